@@ -43,32 +43,58 @@ fn k03_canon(text: &[u8]) -> ([u8; 8], usize) {
     (out, n)
 }
 
-/// K03 (C14/C06/C09): text mode.  For every text of <= 4 octets (all 256 values per octet) and
-/// every split position k, `hash_buf(text[..k]); hash_buf(text[k..]); done()` feeds the digest
-/// exactly canon(text): chunking does not change what is hashed.  Bounded(4 octets, 2 chunks).
-#[kani::proof]
-#[kani::unwind(7)]
-fn k03_normalizing_hasher_text_two_chunks() {
-    let text: [u8; 4] = kani::any();
-    let n: usize = kani::any();
+/// K03 (C14/C06/C09): text mode.  For every text of exactly N octets (all 256 values per octet)
+/// and every split position k, `hash_buf(text[..k]); hash_buf(text[k..]); done()` feeds the digest
+/// exactly canon(text): chunking does not change what is hashed.
+/// The octet comparison is done at a nondeterministic index j < len (equivalent to all j).
+fn k03_text<const N: usize>() {
     let k: usize = kani::any();
-    kani::assume(n <= 4 && k <= n); // input shaping: length and split position
+    kani::assume(k <= N); // input shaping: split position
+    k03_text_at::<N>(k);
+}
+fn k03_text_at<const N: usize>(k: usize) {
+    let text: [u8; N] = kani::any();
     let mut h = NormalizingHasher::new(Box::new(Rec::new()), true);
     h.hash_buf(&text[..k]);
-    h.hash_buf(&text[k..n]);
+    h.hash_buf(&text[k..]);
     let mut d = h.done();
     let rec = d.finalize_reset(); // [len, bytes...]
-    let (want, wn) = k03_canon(&text[..n]);
+    let (want, wn) = k03_canon(&text);
     assert!(rec[0] as usize == wn, "number of octets hashed differs from canon(text)");
-    let mut i = 0;
-    while i < wn {
-        assert!(rec[1 + i] == want[i], "octets hashed differ from canon(text)");
-        i += 1;
+    let j: usize = kani::any();
+    if j < wn {
+        assert!(rec[1 + j] == want[j], "octets hashed differ from canon(text)");
     }
-    // CR | LF split across the two chunks, a lone LF and a lone CR
-    kani::cover!(n == 4 && k == 2 && text[1] == b'\r' && text[2] == b'\n' && text[3] == b'\n');
-    kani::cover!(n == 3 && k == 1 && text[0] == b'\r' && text[1] == b'a' && text[2] == b'\r');
-    kani::cover!(wn == 8);
+    // CR | LF split across the two chunks; lone LF; lone CR at the end of a chunk and of the text
+    kani::cover!(N < 2 || (k == N - 1 && text[N - 2] == b'\r' && text[N - 1] == b'\n'));
+    kani::cover!(N < 1 || (k == N && text[N - 1] == b'\r'));
+    kani::cover!(N < 1 || wn == 2 * N);
+}
+
+#[kani::proof]
+#[kani::unwind(7)]
+fn k03_normalizing_hasher_text_len1() {
+    k03_text::<1>();
+}
+#[kani::proof]
+#[kani::unwind(7)]
+fn k03_normalizing_hasher_text_len2() {
+    k03_text::<2>();
+}
+#[kani::proof]
+#[kani::unwind(7)]
+fn k03_normalizing_hasher_text_len3() {
+    k03_text::<3>();
+}
+#[kani::proof]
+#[kani::unwind(7)]
+fn k03_probe_4_2() {
+    k03_text_at::<4>(2);
+}
+#[kani::proof]
+#[kani::unwind(7)]
+fn k03_normalizing_hasher_text_len4() {
+    k03_text::<4>();
 }
 
 /// K03: binary mode is the identity for every data of <= 4 octets and every split.
@@ -85,10 +111,9 @@ fn k03_normalizing_hasher_binary_identity() {
     let mut d = h.done();
     let rec = d.finalize_reset();
     assert!(rec[0] as usize == n, "binary mode changed the number of octets hashed");
-    let mut i = 0;
-    while i < n {
-        assert!(rec[1 + i] == data[i], "binary mode changed an octet");
-        i += 1;
+    let j: usize = kani::any();
+    if j < n {
+        assert!(rec[1 + j] == data[j], "binary mode changed an octet");
     }
     kani::cover!(n == 4 && k == 1 && data[0] == b'\r' && data[1] == b'\n' && data[2] == b'\n');
 }
